@@ -35,37 +35,49 @@ def adversarial_designs():
             l = L()(a=q.x, b=q.x)
         return CB
     suffixes = ["", "_", "__"]
+    def use(m, L, name, how):
+        """the designer's signal `name`, used the way `how` says (the invented name must dodge it however it is used)"""
+        sig = m.add(h.Signal(name=name))
+        if how == "direct":
+            m.add(L()(a=sig, b=m.v), name="keep")
+        elif how == "slice":
+            m.add(L()(a=sig[0], b=m.v), name="keep")
+        elif how == "concat":
+            m.add(L()(a=h.Concat(sig), b=m.v), name="keep")
+        elif how == "both-ports-sliced":
+            m.add(L()(a=sig[0], b=sig[-1]), name="keep")
+        # "unused": declared, connected to nothing
+    USES = ("direct", "slice", "concat", "both-ports-sliced", "unused")
     # 1. implicit signal behind a port reference: i0_a
     for suf in suffixes:
         for first in (True, False):
-            def b(suf=suf, first=first):
-                L = leaf()
-                m = h.Module(name="AdvPref")
-                m.v = h.Signal()
-                if first:
-                    m.add(h.Signal(name="i0_a" + suf))
-                    m.add(L()(a=m.get("i0_a" + suf), b=m.v), name="keep")
-                m.i0 = L()(b=m.v)
-                m.i1 = L()(a=m.i0.a, b=m.v)
-                if not first:
-                    m.add(h.Signal(name="i0_a" + suf))
-                    m.add(L()(a=m.get("i0_a" + suf), b=m.v), name="keep")
-                return m
-            yield (f"adv/portref/i0_a{suf}/{'before' if first else 'after'}", b)
+            for how in USES:
+                def b(suf=suf, first=first, how=how):
+                    L = leaf()
+                    m = h.Module(name="AdvPref")
+                    m.v = h.Signal()
+                    if first:
+                        use(m, L, "i0_a" + suf, how)
+                    m.i0 = L()(b=m.v)
+                    m.i1 = L()(a=m.i0.a, b=m.v)
+                    if not first:
+                        use(m, L, "i0_a" + suf, how)
+                    return m
+                yield (f"adv/portref/i0_a{suf}/{'before' if first else 'after'}/{how}", b)
     # 2. no-connects, named and unnamed
     for suf in suffixes:
         for named in (None, "i0_a", "nc"):
-            def b(suf=suf, named=named):
-                L = leaf()
-                m = h.Module(name="AdvNc")
-                m.v = h.Signal()
-                tgt = (named or "i0_a") + suf
-                m.add(h.Signal(name=tgt))
-                m.add(L()(a=m.get(tgt), b=m.v), name="keep")
-                m.i0 = L()(a=h.NoConn(name=named) if named else h.NoConn(), b=m.v)
-                m.i2 = L()(a=h.NoConn(name=named) if named else h.NoConn(), b=m.v)
-                return m
-            yield (f"adv/noconn/{named}/{suf or '-'}", b)
+            for how in USES:
+                def b(suf=suf, named=named, how=how):
+                    L = leaf()
+                    m = h.Module(name="AdvNc")
+                    m.v = h.Signal()
+                    tgt = (named or "i0_a") + suf
+                    use(m, L, tgt, how)
+                    m.i0 = L()(a=h.NoConn(name=named) if named else h.NoConn(), b=m.v)
+                    m.i2 = L()(a=h.NoConn(name=named) if named else h.NoConn(), b=m.v)
+                    return m
+                yield (f"adv/noconn/{named}/{suf or '-'}/{how}", b)
     # 3. flattened bundle members: b_x, and a bundle port of a child
     for suf in suffixes:
         for first in (True, False):
@@ -107,6 +119,41 @@ def adversarial_designs():
                     adv()
                 return m
             yield (f"adv/array-pair/{suf or '-'}/{'before' if first else 'after'}", b)
+    # 4b. the designer's own object under the invented name is itself a compound that elaboration takes apart (another pair,
+    #     another array, a bundle instance): it is on its way out of the namespace when the invention is named
+    for suf in ("", "_"):
+        for first in (True, False):
+            for kind in ("pair-vs-pair", "array-vs-array", "pair-vs-array", "array-vs-pair", "bundle-vs-portref"):
+                def b(suf=suf, first=first, kind=kind):
+                    L = leaf()
+                    m = h.Module(name="AdvCompound")
+                    m.v, m.u = h.Signal(), h.Signal()
+                    m.w, m.w2 = h.Signal(width=2), h.Signal(width=2)
+                    own, other = kind.split("-vs-")
+
+                    def theirs():
+                        if other == "pair":
+                            m.add(h.Pair(L())(a=h.AnonymousBundle(p=m.v, n=m.u), b=m.v), name="pr")
+                        elif other == "array":
+                            m.add(2 * L()(a=m.w, b=m.v), name="arr")
+                        else:
+                            m.i0 = L()(b=m.v)
+                            m.i1 = L()(a=m.i0.a, b=m.v)
+                    name = {"pair": "pr_p", "array": "arr_0", "portref": "i0_a"}[other] + suf
+
+                    def mine():
+                        if own == "pair":
+                            m.add(h.Pair(L())(a=h.AnonymousBundle(p=m.u, n=m.v), b=m.u), name=name)
+                        elif own == "array":
+                            m.add(2 * L()(a=m.w2, b=m.u), name=name)
+                        else:
+                            B = bun()
+                            m.add(B(), name=name)
+                            m.add(L()(a=m.get(name).x, b=m.u), name="keep")
+                    for f in ((mine, theirs) if first else (theirs, mine)):
+                        f()
+                    return m
+                yield (f"adv/compound/{kind}/{suf or '-'}/{'before' if first else 'after'}", b)
     # 5. a signal named like an array element, an instance named like an implicit signal
     def b5():
         L = leaf()
@@ -251,7 +298,7 @@ def run(ctx):
                          "before or after the construct; invented names that clash with each other (bundle members a_b vs a.b, "
                          "implicit signals i0.a_b vs i0_a.b); oracle: reference meaning + identity of designer objects; "
                          "all distinct and non-trivial",
-                    bound="5 naming rules x 3 suffixes x 2 orders + 8 self-clash designs", key_of=lambda c: c[0])
+                    bound="5 naming rules x 3 suffixes x 2 orders (port references and no-connects: x 5 ways the designer's signal is used) + 8 self-clash designs", key_of=lambda c: c[0])
     return INFO
 
 
